@@ -6,7 +6,9 @@ import random
 def config(rng, idle=False):
     return dict(op="config", round=rng.choice([1, 2, 3, 1000, 1000]), batch=rng.random() < 0.35,
                 minb=rng.choice([50, 100]), maxb=rng.choice([200, 800, 3200]), limit_ms=rng.choice([1, 1, 5]),
-                prune_ms=rng.choice([0, 0, 700]), idle=idle)
+                prune_ms=rng.choice([0, 0, 700]), idle=idle,
+                # objects carry a reconciler.StatusSet (several reconcilers per object) instead of a single Status
+                statusset=rng.random() < 0.4)
 
 
 def finish(ops, cfg, outstanding):
@@ -107,7 +109,68 @@ def gen_inflight(rng):
     return finish(ops, cfg, outstanding)
 
 
+def gen_retrywindow(rng):
+    """A user change while a failed operation waits in the retry queue: upsert/delete fails, its error status is
+    committed, then -- inside the backoff window -- the object is updated, deleted, re-inserted or touched by
+    another writer (possibly twice), with and without further failures; single and batch mode."""
+    cfg = config(rng)
+    cfg["maxb"] = rng.choice([800, 3200])
+    ops = [cfg]
+    K = rng.randint(1, 2)
+    outstanding = 0
+    for k in range(1, K + 1):
+        ops.append(dict(op="user", kind="upsert", k=k))
+    if rng.random() < 0.3:
+        ops.append(dict(op="sleep", ms=20))
+    for _ in range(rng.randint(1, 3)):
+        k = rng.randint(1, K)
+        first = rng.choice(["update", "update", "delete"])
+        n = rng.randint(1, 2)
+        outstanding += n
+        if first == "delete":
+            ops.append(dict(op="fail", k=k, n=n, on="delete"))
+            ops.append(dict(op="user", kind="delete", k=k))
+        else:
+            ops.append(dict(op="fail", k=k, n=n, on="update"))
+            ops.append(dict(op="user", kind="upsert", k=k))
+        # let the failure happen and its status be committed, stay inside the backoff window
+        ops.append(dict(op="sleep", ms=rng.choice([2, 5, cfg["minb"] // 2, cfg["minb"] + 1])))
+        for _ in range(rng.randint(1, 2)):
+            ops.append(dict(op="user", kind=rng.choice(["delete", "upsert", "reinsert", "status2", "delete"]), k=k))
+            ops.append(dict(op="sleep", ms=rng.choice([0, 1, 3, cfg["minb"]])))
+        if rng.random() < 0.3:
+            ops.append(dict(op="wait", back=0, q=False))
+        ops.append(dict(op="sleep", ms=rng.choice([1, cfg["minb"] * 3, cfg["maxb"] + 50])))
+    return finish(ops, cfg, outstanding)
+
+
+def gen_lowwatermark(rng):
+    """Several objects failing at the same time, WaitUntilReconciled probes at idle moments between their
+    retries: the reported low watermark must be the oldest failed change."""
+    cfg = config(rng)
+    cfg["round"] = rng.choice([1, 1000])
+    cfg["prune_ms"] = 0
+    cfg["maxb"] = rng.choice([800, 3200])
+    ops = [cfg]
+    K = rng.randint(2, 4)
+    outstanding = 0
+    for k in range(1, K + 1):
+        n = rng.randint(2, 4)
+        outstanding += n
+        ops.append(dict(op="fail", k=k, n=n, on="update"))
+        ops.append(dict(op="user", kind="upsert", k=k))
+        if rng.random() < 0.5:
+            ops.append(dict(op="sleep", ms=rng.choice([1, 30, cfg["minb"]])))
+    for _ in range(rng.randint(3, 8)):
+        ops.append(dict(op="sleep", ms=rng.choice([5, cfg["minb"], cfg["minb"] * 2 + 1, cfg["minb"] * 4 + 3, 450])))
+        ops.append(dict(op="wait", back=0, q=True, ms=1))
+        if rng.random() < 0.2:
+            k = rng.randint(1, K)
+            ops.append(dict(op="user", kind=rng.choice(["upsert", "delete"]), k=k))
+    return finish(ops, cfg, outstanding)
+
+
 def generate(kind, n, seed):
     rng = random.Random(seed)
-    fn = {"general": gen_general, "backoff": gen_backoff, "inflight": gen_inflight}[kind]
+    fn = {"lowwatermark": gen_lowwatermark, "general": gen_general, "backoff": gen_backoff, "inflight": gen_inflight, "retrywindow": gen_retrywindow}[kind]
     return [fn(rng) for _ in range(n)]
